@@ -70,16 +70,19 @@ impl<T> SchemeMatcher<T> {
         removed
     }
 
-    pub fn batch_remove(&mut self, ids: &HashSet<String>) -> bool {
-        self.any_scheme.batch_remove(ids);
+    /// Remove routes by ids, returns ids of routes really removed
+    pub fn batch_remove(&mut self, ids: &HashSet<String>) -> HashSet<String> {
+        let mut removed = self.any_scheme.batch_remove(ids);
 
         self.schemes.retain(|_, matcher| {
-            matcher.batch_remove(ids);
+            removed.extend(matcher.batch_remove(ids));
 
             !matcher.is_empty()
         });
 
-        self.any_scheme.is_empty() && self.schemes.is_empty()
+        self.count -= removed.len();
+
+        removed
     }
 
     pub fn match_request(&self, request: &Request) -> Vec<Arc<Route<T>>> {
